@@ -1,7 +1,7 @@
 (* Properties/C14.v — Sparse Merkle proofs prove membership and non-membership exactly.
    Only statements, each closed by `exact` of a lemma proved elsewhere, and its assumptions. *)
 From FV Require Import Base.Bytes Merkle.SparseSpec Merkle.SparseFun Merkle.SparseModel
-  Merkle.SparseProofs Merkle.SparseRefine Merkle.SparseInst.
+  Merkle.SparseProofs Merkle.SparseRefine Merkle.SparseTree Merkle.SparseHistory Merkle.SparseInst.
 Open Scope N_scope.
 
 (* The model of InclusionProof::verify accepts EXACTLY when the compact-tree recomputation
@@ -91,6 +91,37 @@ Theorem C14_spec_excl_complete :
                      (rev (spec_sides zero hleaf hnode D [] k m)) (spec_terminal D [] k m).
 Proof. exact @spec_excl_complete. Qed.
 Print Assumptions C14_spec_excl_complete.
+
+(* The model of MerkleTree::generate_proof on any tree that persists a map m (in particular
+   every tree reached by a history, Properties/C12.v C12_refine): the proof is an inclusion
+   proof EXACTLY when the key is present; its proof set is the list of siblings of the compact
+   tree of m; it verifies against the tree's root — the inclusion proof with every value whose
+   hash is the stored one, the exclusion proof (closest leaf or placeholder) as it is.
+   Premises: the record [smt_iface] (printed in Properties/C12.v), incl. collision-freeness. *)
+Theorem C14_generate_proof :
+  forall (Dg : Type) (IF : smt_iface Dg) (T : @tree Dg) (m : @smap Dg) (key : Dg),
+    persisted IF T m -> length (i_bits IF key) = 256%nat ->
+    match m_get m (i_bits IF key) with
+    | Some v =>
+        generate_proof (i_eqb IF) (i_zero IF) (i_hleaf IF) (i_hnode IF) (i_kbit IF) T key
+        = Ok (Inclusion (rev (spec_sides (i_zero IF) (shleaf (i_hleaf IF) (i_of_bits IF)) (i_hnode IF) 256 [] (i_bits IF key) m))) /\
+        (forall value, i_sum IF value = v ->
+           inclusion_verify (i_eqb IF) (i_hleaf IF) (i_hnode IF) (i_sum IF) (i_kbit IF)
+             (rev (spec_sides (i_zero IF) (shleaf (i_hleaf IF) (i_of_bits IF)) (i_hnode IF) 256 [] (i_bits IF key) m))
+             (tree_root (i_zero IF) T) key value = Some true)
+    | None =>
+        generate_proof (i_eqb IF) (i_zero IF) (i_hleaf IF) (i_hnode IF) (i_kbit IF) T key
+        = Ok (Exclusion (rev (spec_sides (i_zero IF) (shleaf (i_hleaf IF) (i_of_bits IF)) (i_hnode IF) 256 [] (i_bits IF key) m))
+                        (exl IF (spec_terminal 256 [] (i_bits IF key) m))) /\
+        exclusion_verify (i_eqb IF) (i_zero IF) (i_hleaf IF) (i_hnode IF) (i_kbit IF)
+          (rev (spec_sides (i_zero IF) (shleaf (i_hleaf IF) (i_of_bits IF)) (i_hnode IF) 256 [] (i_bits IF key) m))
+          (exl IF (spec_terminal 256 [] (i_bits IF key) m)) (tree_root (i_zero IF) T) key = Some true
+    end.
+Proof. exact @generate_proof_correct. Qed.
+Print Assumptions C14_generate_proof.
+
+Example C14_generate_proof_premises : persisted lb_iface (tree_new []) [] /\ length (i_bits lb_iface (repeat true 256)) = 256%nat.
+Proof. exact (conj (persisted_empty lb_iface) lb_key_256). Qed.
 
 (* the premises are satisfiable: a digest type with collision-free hashes and a key interface *)
 Example C14_premises_satisfiable :
